@@ -158,99 +158,102 @@ def run(ctx: Ctx) -> None:
     # ------------------------------------------------------------ R-C06.2 CFG-level predicates
     ccl = idx.find_func("check_cfg_linearity", LC)
     ctx.saw("functions", ccl.qualname)
-    succ_loop = next((n for n in ast.walk(ccl.node) if isinstance(n, ast.For) and ast.unparse(n.iter) == "bb.successors" and "live_before" in ast.unparse(n.body[0])), None)
-    leak_loop = next((n for n in ast.walk(ccl.node) if isinstance(n, ast.For) and ast.unparse(n.iter) == "scope.values()"), None)
-    if leak_loop is None:
-        # located by what it does instead: the outermost loop (inside the per-block loop) that raises PlaceNotUsedError
-        per_block = next((n for n in ast.walk(ccl.node) if isinstance(n, ast.For) and "scopes.items()" in ast.unparse(n.iter)), None)
-        cands = [n for n in (ast.walk(per_block) if per_block is not None else []) if isinstance(n, ast.For) and n is not per_block
-                 and any(isinstance(c, ast.Call) and isinstance(c.func, ast.Name) and c.func.id == "PlaceNotUsedError" for c in ast.walk(n))]
-        outer = [n for n in cands if not any(n is not m and any(x is n for x in ast.walk(m)) for m in cands)]
-        leak_loop = outer[0] if outer else None
-        if leak_loop is not None:
-            ctx.violation("R-C06.2", f"{ccl.qualname}#leak-check-covers-every-visible-place", f"{ccl.module.rel}:{leak_loop.lineno}",
-                          {"iterates": ast.unparse(leak_loop.iter), "expected": "scope.values()  (all places visible in the block, inherited ones included)"},
-                          "the 'unused and not passed on' check only looks at part of the places a block can see (e.g. only the ones assigned in the "
-                          "block): a qubit that merely passes through a branching block and is consumed on one side only is leaked unnoticed")
-    else:
-        ctx.ok("R-C06.2", f"{ccl.qualname}#leak-check-covers-every-visible-place", f"{ccl.module.rel}:{leak_loop.lineno}", {"iterates": "scope.values()"})
-    if succ_loop is None or leak_loop is None:
-        raise AnalysisError("check_cfg_linearity: the two CFG-level loops were not found")
-    inner = next((n for n in ast.walk(succ_loop) if isinstance(n, ast.For) and n is not succ_loop), None)
-    table_check(ctx, "R-C06.2", f"{ccl.qualname}#used-and-still-live", f"{ccl.module.rel}:{succ_loop.lineno}", inner or succ_loop,
-                [r for r in ast.walk(succ_loop) if isinstance(r, ast.Raise)], ["copyable", "used"], known_place,
-                lambda copyable, used: (not copyable) and used,
-                "a non-copyable value that was used in a block is still passed on to a successor that uses it again (use after consumption across blocks)")
-    ok = inner is not None and ".items()" in ast.unparse(inner.iter) and not any(isinstance(n, (ast.Break, ast.Return)) for s in succ_loop.body for n in walk_no_nested(s))
-    ctx.check(ok, "R-C06.2", f"{ccl.qualname}#every-successor-every-live-place", f"{ccl.module.rel}:{succ_loop.lineno}", {"inner": ast.unparse(inner.iter) if inner else None},
-              "not every (successor, live place) pair is examined")
-
-    def known_leak(x: ast.expr):
-        s = ast.unparse(x)
-        k = known_place(x)
-        if k:
-            return k
-        if s == "used_later":
-            return "+later"
-        if isinstance(x, ast.Compare) and len(x.ops) == 1 and isinstance(x.ops[0], (ast.In, ast.NotIn)):
-            c = ast.unparse(x.comparators[0])
-            pos = isinstance(x.ops[0], ast.In)
-            if c == "live_before_bb":
-                return ("+" if pos else "-") + "livehere"
-            if c == "scope.vars":
-                return ("+" if pos else "-") + "assignedhere"
-        return None
-    leaf_loop = next((n for n in ast.walk(leak_loop) if isinstance(n, ast.For) and n is not leak_loop), leak_loop)
-    table_check(ctx, "R-C06.2", f"{ccl.qualname}#unused-and-not-live", f"{ccl.module.rel}:{leak_loop.lineno}", leaf_loop,
-                [r for r in ast.walk(leak_loop) if isinstance(r, ast.Raise)], ["droppable", "used", "later", "livehere", "assignedhere"], known_leak,
-                lambda droppable, used, later, livehere, assignedhere: (not droppable) and (not used) and (not later) and (livehere or assignedhere),
-                "a non-droppable value (qubit) that is neither used in a block nor needed by all successors is silently discarded on some path")
-    # used_later := live before every successor
-    ul = [n for n in ast.walk(leak_loop) if isinstance(n, ast.Assign) and dotted(n.targets[0]) == "used_later"]
-    if len(ul) != 1:
-        ctx.undecided("R-C06.2", f"{ccl.qualname}#used_later", ccl.where, "definition of used_later not found")
-    else:
-        ev = PyEval(idx, LC)
-        bad = []
-        und = None
-        n = 0
-        exit_bb = Tok("exit")
-        holder = next((b for nn in ast.walk(leak_loop) for b in (getattr(nn, "body", None), getattr(nn, "orelse", None))
-                       if isinstance(b, list) and any(x is ul[0] for x in b)), [ul[0]])
-        prelude = [st for st in holder[: next(i for i, x in enumerate(holder) if x is ul[0])]
-                   if isinstance(st, ast.Assign) and len(st.targets) == 1 and isinstance(st.targets[0], ast.Name) and st.targets[0].id not in ("x",)]
-        for k in (0, 1, 2):
-            for member in itertools.product((False, True), repeat=k):
-                for in_exit in (False, True):
-                    succs = [Tok(f"s{i}") for i in range(k)]
-                    lb = {s: ({"x"} if m else set()) for s, m in zip(succs, member)}
-                    lb[exit_bb] = {"x"} if in_exit else set()
-                    env = {"x": "x", "bb": Tok("bb", successors=succs, dummy_successors=[]), "live_before": lb, "cfg": Tok("cfg", exit_bb=exit_bb)}
-                    n += 1
-                    try:
-                        # plain assignments that precede the definition in the same block may define what it reads
-                        # (`live_in_succs = [...]`): interpret those that are evaluable, in order
-                        for st in prelude:
-                            try:
-                                ev.run([st], env)
-                            except (Unsupported, Raised):
-                                env.pop(st.targets[0].id, None)
-                        got = ev.ev(ul[0].value, env)
-                    except (Unsupported, Raised) as e:
-                        und = str(e)
-                        break
-                    if got is not all(member):
-                        bad.append({"successors_where_live": list(member), "live_at_exit": in_exit, "used_later": got, "want": all(member)})
-        if und:
-            ctx.undecided("R-C06.2", f"{ccl.qualname}#used_later", ccl.where, und)
+    from . import c06_cfg
+    if not c06_cfg.run(ctx):
+        # fallback (check_cfg_linearity not interpretable): truth tables of the raise conditions inside the two CFG-level loops
+        succ_loop = next((n for n in ast.walk(ccl.node) if isinstance(n, ast.For) and ast.unparse(n.iter) == "bb.successors" and "live_before" in ast.unparse(n.body[0])), None)
+        leak_loop = next((n for n in ast.walk(ccl.node) if isinstance(n, ast.For) and ast.unparse(n.iter) == "scope.values()"), None)
+        if leak_loop is None:
+            # located by what it does instead: the outermost loop (inside the per-block loop) that raises PlaceNotUsedError
+            per_block = next((n for n in ast.walk(ccl.node) if isinstance(n, ast.For) and "scopes.items()" in ast.unparse(n.iter)), None)
+            cands = [n for n in (ast.walk(per_block) if per_block is not None else []) if isinstance(n, ast.For) and n is not per_block
+                     and any(isinstance(c, ast.Call) and isinstance(c.func, ast.Name) and c.func.id == "PlaceNotUsedError" for c in ast.walk(n))]
+            outer = [n for n in cands if not any(n is not m and any(x is n for x in ast.walk(m)) for m in cands)]
+            leak_loop = outer[0] if outer else None
+            if leak_loop is not None:
+                ctx.violation("R-C06.2", f"{ccl.qualname}#leak-check-covers-every-visible-place", f"{ccl.module.rel}:{leak_loop.lineno}",
+                              {"iterates": ast.unparse(leak_loop.iter), "expected": "scope.values()  (all places visible in the block, inherited ones included)"},
+                              "the 'unused and not passed on' check only looks at part of the places a block can see (e.g. only the ones assigned in the "
+                              "block): a qubit that merely passes through a branching block and is consumed on one side only is leaked unnoticed")
         else:
-            ctx.check(not bad, "R-C06.2", f"{ccl.qualname}#used_later", f"{ccl.module.rel}:{ul[0].lineno}", {"cases": n, "counterexamples": bad[:4]},
-                      "'will be used later' is not 'live before every successor': a qubit dropped on one branch is accepted because it is used "
-                      "(or returned) on another path")
-    # scopes for every block
-    sc = [n for n in ast.walk(ccl.node) if isinstance(n, ast.DictComp) and "cfg.bbs" in ast.unparse(n.generators[0].iter)]
-    ctx.check(bool(sc) and not sc[0].generators[0].ifs, "R-C06.3", f"{ccl.qualname}#checks-every-block", ccl.where, {"scopes": ast.unparse(sc[0].generators[0].iter) if sc else None},
-              "some blocks are not linearity-checked")
+            ctx.ok("R-C06.2", f"{ccl.qualname}#leak-check-covers-every-visible-place", f"{ccl.module.rel}:{leak_loop.lineno}", {"iterates": "scope.values()"})
+        if succ_loop is None or leak_loop is None:
+            raise AnalysisError("check_cfg_linearity: the two CFG-level loops were not found")
+        inner = next((n for n in ast.walk(succ_loop) if isinstance(n, ast.For) and n is not succ_loop), None)
+        table_check(ctx, "R-C06.2", f"{ccl.qualname}#used-and-still-live", f"{ccl.module.rel}:{succ_loop.lineno}", inner or succ_loop,
+                    [r for r in ast.walk(succ_loop) if isinstance(r, ast.Raise)], ["copyable", "used"], known_place,
+                    lambda copyable, used: (not copyable) and used,
+                    "a non-copyable value that was used in a block is still passed on to a successor that uses it again (use after consumption across blocks)")
+        ok = inner is not None and ".items()" in ast.unparse(inner.iter) and not any(isinstance(n, (ast.Break, ast.Return)) for s in succ_loop.body for n in walk_no_nested(s))
+        ctx.check(ok, "R-C06.2", f"{ccl.qualname}#every-successor-every-live-place", f"{ccl.module.rel}:{succ_loop.lineno}", {"inner": ast.unparse(inner.iter) if inner else None},
+                  "not every (successor, live place) pair is examined")
+
+        def known_leak(x: ast.expr):
+            s = ast.unparse(x)
+            k = known_place(x)
+            if k:
+                return k
+            if s == "used_later":
+                return "+later"
+            if isinstance(x, ast.Compare) and len(x.ops) == 1 and isinstance(x.ops[0], (ast.In, ast.NotIn)):
+                c = ast.unparse(x.comparators[0])
+                pos = isinstance(x.ops[0], ast.In)
+                if c == "live_before_bb":
+                    return ("+" if pos else "-") + "livehere"
+                if c == "scope.vars":
+                    return ("+" if pos else "-") + "assignedhere"
+            return None
+        leaf_loop = next((n for n in ast.walk(leak_loop) if isinstance(n, ast.For) and n is not leak_loop), leak_loop)
+        table_check(ctx, "R-C06.2", f"{ccl.qualname}#unused-and-not-live", f"{ccl.module.rel}:{leak_loop.lineno}", leaf_loop,
+                    [r for r in ast.walk(leak_loop) if isinstance(r, ast.Raise)], ["droppable", "used", "later", "livehere", "assignedhere"], known_leak,
+                    lambda droppable, used, later, livehere, assignedhere: (not droppable) and (not used) and (not later) and (livehere or assignedhere),
+                    "a non-droppable value (qubit) that is neither used in a block nor needed by all successors is silently discarded on some path")
+        # used_later := live before every successor
+        ul = [n for n in ast.walk(leak_loop) if isinstance(n, ast.Assign) and dotted(n.targets[0]) == "used_later"]
+        if len(ul) != 1:
+            ctx.undecided("R-C06.2", f"{ccl.qualname}#used_later", ccl.where, "definition of used_later not found")
+        else:
+            ev = PyEval(idx, LC)
+            bad = []
+            und = None
+            n = 0
+            exit_bb = Tok("exit")
+            holder = next((b for nn in ast.walk(leak_loop) for b in (getattr(nn, "body", None), getattr(nn, "orelse", None))
+                           if isinstance(b, list) and any(x is ul[0] for x in b)), [ul[0]])
+            prelude = [st for st in holder[: next(i for i, x in enumerate(holder) if x is ul[0])]
+                       if isinstance(st, ast.Assign) and len(st.targets) == 1 and isinstance(st.targets[0], ast.Name) and st.targets[0].id not in ("x",)]
+            for k in (0, 1, 2):
+                for member in itertools.product((False, True), repeat=k):
+                    for in_exit in (False, True):
+                        succs = [Tok(f"s{i}") for i in range(k)]
+                        lb = {s: ({"x"} if m else set()) for s, m in zip(succs, member)}
+                        lb[exit_bb] = {"x"} if in_exit else set()
+                        env = {"x": "x", "bb": Tok("bb", successors=succs, dummy_successors=[]), "live_before": lb, "cfg": Tok("cfg", exit_bb=exit_bb)}
+                        n += 1
+                        try:
+                            # plain assignments that precede the definition in the same block may define what it reads
+                            # (`live_in_succs = [...]`): interpret those that are evaluable, in order
+                            for st in prelude:
+                                try:
+                                    ev.run([st], env)
+                                except (Unsupported, Raised):
+                                    env.pop(st.targets[0].id, None)
+                            got = ev.ev(ul[0].value, env)
+                        except (Unsupported, Raised) as e:
+                            und = str(e)
+                            break
+                        if got is not all(member):
+                            bad.append({"successors_where_live": list(member), "live_at_exit": in_exit, "used_later": got, "want": all(member)})
+            if und:
+                ctx.undecided("R-C06.2", f"{ccl.qualname}#used_later", ccl.where, und)
+            else:
+                ctx.check(not bad, "R-C06.2", f"{ccl.qualname}#used_later", f"{ccl.module.rel}:{ul[0].lineno}", {"cases": n, "counterexamples": bad[:4]},
+                          "'will be used later' is not 'live before every successor': a qubit dropped on one branch is accepted because it is used "
+                          "(or returned) on another path")
+        # scopes for every block
+        sc = [n for n in ast.walk(ccl.node) if isinstance(n, ast.DictComp) and "cfg.bbs" in ast.unparse(n.generators[0].iter)]
+        ctx.check(bool(sc) and not sc[0].generators[0].ifs, "R-C06.3", f"{ccl.qualname}#checks-every-block", ccl.where, {"scopes": ast.unparse(sc[0].generators[0].iter) if sc else None},
+                  "some blocks are not linearity-checked")
 
     # ------------------------------------------------------------ R-C06.3
     cc = idx.find_func("check_cfg", "guppylang_internals.checker.cfg_checker")
